@@ -6,6 +6,6 @@ CONSTANTS
   MARK <- MarkNonPos
   MaxFills = 3
 INVARIANTS TypeOK SideSize Conservation FeesConserved
-PROPERTIES ExitIff Ids QmaxAvg FreshUnreal MarkOnlyUnreal NoPriceStutter
+PROPERTIES ExitIff Ids QmaxAvg FreshUnreal MarkOnlyUnreal NoPriceStutter PersistIsStutter
 VIEW View
 CHECK_DEADLOCK FALSE
